@@ -471,6 +471,34 @@ def _f8(ctx):
     ctx.floor(R, 4)
 
 
+def _f9(ctx):
+    R = "C09-F9"
+    ctx.doc(R, "recursive calls of the sign test keep every flag in its own position (check_lt_zero is never passed where terms_do_not_cross_zero is expected and vice versa); the connected-term cache stores a result only under the operand order it was computed for")
+    fi = ctx.func(MTS, "_compare_to_zero", R)
+    ps = fi.params()
+    n = 0
+    for c in fi.calls("_compare_to_zero"):
+        for i, a in enumerate(c.args):
+            if isinstance(a, ast.Name) and a.id in ps and i < len(ps):
+                n += 1
+                ctx.check(a.id == ps[i], R, fi, c, f"argument #{i + 1} of the recursive call is `{a.id}` but the parameter in that position is `{ps[i]}`: the sub-formula is tested for the other sign (and the flags are exchanged), "
+                          "so 'may be below zero' is answered from 'may be above zero'", f"`{a.id}` passed in its own position")
+        for k in c.keywords:
+            if isinstance(k.value, ast.Name) and k.value.id in ps and k.arg in ps:
+                n += 1
+                ctx.check(k.value.id == k.arg, R, fi, c, f"`{k.arg}={k.value.id}`: flags exchanged in the recursive call", f"{k.arg} passed as itself")
+    ctx.require(n >= 6, R, f"flag arguments of recursive calls: {n}")
+    ic = ctx.func(MTS, "_is_connected_cached", R)
+    stores = [st for st in ic.stmts() for t, v, _ in assigned_targets(st) if isinstance(t, ast.Subscript) and norm(t.value) == "_is_connected_cache"]
+    ctx.require(len(stores) >= 1, R, "store into the connected-term cache")
+    keydef = [v for st in ic.stmts() for t, v, _ in assigned_targets(st) if isinstance(t, ast.Name) and t.id == "key"]
+    ok_key = len(keydef) == 1 and isinstance(keydef[0], ast.Tuple) and [norm(e) for e in keydef[0].elts] == ic.params()[-2:]
+    for st in stores:
+        ok = norm(st.targets[0].slice) == "key" and ok_key
+        ctx.check(ok, R, ic, st, f"`{norm(st)}` files the answer under another operand order than the one it was computed for: Max for (x, y) means Min for (y, x), so the mirrored entry makes sympy drop the wrong argument of a Max/Min", "answer stored under (x, y) as received")
+    ctx.floor(R, 7)
+
+
 def check(ctx):
     _f1(ctx)
     _f2(ctx)
@@ -480,9 +508,11 @@ def check(ctx):
     _f6(ctx)
     _f7(ctx)
     _f8(ctx)
+    _f9(ctx)
 
 
 VARIANTS = [
+    {"kind": "F", "name": "mirrored-cache-entry", "rule": "C09-F9", "edits": [(MTS, "    _is_connected_cache[key] = result\n", "    _is_connected_cache[key] = result\n    _is_connected_cache[key[::-1]] = result\n")]},
     {"kind": "F", "name": "corner-shortcut-not-strict", "rule": "C09-F7", "edits": [(MTS, "        if min_f > 0:\n            return ComparisonResult.ALWAYS_GEQ_THAN_ZERO", "        if min_f >= 0:\n            return ComparisonResult.ALWAYS_GEQ_THAN_ZERO")]},
     {"kind": "F", "name": "corner-shortcut-wrong-side", "rule": "C09-F7", "edits": [(MTS, "        if max_f < 0:\n            return ComparisonResult.ALWAYS_LEQ_THAN_ZERO", "        if max_f > 0:\n            return ComparisonResult.ALWAYS_LEQ_THAN_ZERO")]},
     {"kind": "F", "name": "handler-returns-false", "rule": "C09-F1", "edits": [(MTS, "    except (NotImplementedError, TypeError):\n        return True", "    except (NotImplementedError, TypeError):\n        return False")]},
